@@ -146,9 +146,16 @@ func (g *goGen) value(depth int) (interface{}, V) {
 			return map[string]int16{"k": int16(iv)}, V{"map", 1, []interface{}{[]interface{}{B("k"), V{"int", ord, 16, zeroFlag(iv)}}}}
 		}
 		return map[myStr]uint8{"k": uint8(iv)}, V{"map", 1, []interface{}{[]interface{}{B("k"), V{"uint", ord, 8, zeroFlag(iv)}}}}
-	case k < 70: // non-string keys
-		if g.r.Intn(2) == 0 {
+	case k < 70: // non-string keys; a nil map has no pairs, its key type decides all the same
+		switch g.r.Intn(4) {
+		case 0:
 			return map[int]string{1: "a"}, V{"map", 0, []interface{}{[]interface{}{B("1"), V{"string", B("a")}}}}
+		case 1:
+			var m map[int]string
+			return m, V{"map", 0, []interface{}{}}
+		case 2:
+			var m map[string]int8
+			return m, V{"map", 1, []interface{}{}}
 		}
 		return map[bool]int{}, V{"map", 0, []interface{}{}}
 	case k < 80: // []interface{}
